@@ -506,19 +506,29 @@ pub fn check_history(ops: &[SymOp], names: &[String]) -> (Result<(), SymViolatio
 
 /// Draw one history (swarm-weighted) and the name pool it uses.
 pub fn gen_history(r: &mut Rng) -> (Vec<SymOp>, Vec<String>) {
-    let n_names = 1 + r.below(6);
+    // usually a handful of names (collisions, shadowing); sometimes many (large scopes)
+    let many = r.chance(1, 8);
+    let n_names = if many { 20 + r.below(60) } else { 1 + r.below(6) };
     let mut names: Vec<String> = vec![];
     while names.len() < n_names {
-        let n = r.pick_str(NAME_POOL).to_string();
+        let n = if many && names.len() >= 4 {
+            format!("n{}", names.len())
+        } else {
+            r.pick_str(NAME_POOL).to_string()
+        };
         if !names.contains(&n) {
             names.push(n);
         }
     }
-    let len = match r.below(10) {
-        0 => 1 + r.below(4),
-        1..=5 => 4 + r.below(20),
-        6..=8 => 20 + r.below(60),
-        _ => 80 + r.below(121),
+    let len = if many {
+        60 + r.below(141)
+    } else {
+        match r.below(10) {
+            0 => 1 + r.below(4),
+            1..=5 => 4 + r.below(20),
+            6..=8 => 20 + r.below(60),
+            _ => 80 + r.below(121),
+        }
     };
     // swarm weights: enter, exit, bind, lookup, lookup_or_bind, load_std, fork, enter_global
     let profile = r.below(6);
